@@ -191,6 +191,19 @@ def run(res, replay=None):
             if i % 2 == 0 and c['spec'].get('added_events'):
                 # epochs are looked up at the same times WHILE the demography is still being assembled with add_event
                 c['spec']['probe_times'] = list(c['lookup'])
+    if not replay:
+        # the demography as completed by a Coalescent whose sample names a population the demography does not mention (the missing
+        # population gets size 1 from time 0; everything the user specified - also at time 0 - stays in force)
+        for j in range(6 if res.tier == 'quick' else 40):
+            base = rand_demography(rng, discrete_only=True)
+            dp = demog.all_pops(base)
+            if not dp:
+                continue
+            s2 = dict(base)
+            if isinstance(s2.get('pop_sizes'), dict) and j % 2 == 0:
+                s2['pop_sizes'] = {p: dict(d, **{'0.0': rng.choice([2.0, 4.0, 0.5])}) if isinstance(d, dict) else d for p, d in s2['pop_sizes'].items()}
+            s2['n_items'] = [[dp[0], 2], ['zz', 1]] if j % 3 else [['zz', 1], [dp[-1], 2]]
+            cases.append({'spec': s2, 'n_epochs': NE, 'lookup': rng.sample(lookups, 6), 'via_coalescent': True, 'extra': ['zz']})
     chunks = [cases[i::C.NCPU] for i in range(C.NCPU)]
     chunks = [c for c in chunks if c]
     outs = C.run_impl_parallel('demography.py', [{'cases': c} for c in chunks])
@@ -205,10 +218,12 @@ def run(res, replay=None):
             res.violation('valid demography raised', {'spec': c['spec'], 'error': r['error']})
             continue
         pops = demog.all_pops(c['spec'])
+        if c.get('extra'):
+            pops = sorted(set(pops) | set(c['extra']))
         if pops != r['pops']:
             res.violation('population names differ', {'spec': c['spec'], 'model': pops, 'observed': r['pops']})
             continue
-        b = (f'Eval vm_compute in (map show_epoch (epochs {len(pops)}%nat {demog.events_coq(c["spec"], pops)} {NE}%nat)).\n')
+        b = (f'Eval vm_compute in (map show_epoch (epochs {len(pops)}%nat {demog.events_coq(c["spec"], pops, extra_sizes=c.get("extra"))} {NE}%nat)).\n')
         bodies.append(b)
         idx.append(c)
     nsh = min(C.NCPU, max(1, len(bodies)))
